@@ -138,83 +138,100 @@ func checkTable(c *vrt.Cases, table []rRoute, reqMethods, reqPaths []string) {
 			if p != cleaned {
 				class += "-unclean"
 			}
-			runs := vrt.ForEachMapOrder(func() {
-				o := &rObs{}
-				rt := NewRouter()
-				for _, r := range table {
-					r := r
-					if err := rt.Handle(r.method, r.pattern, http.HandlerFunc(func(w http.ResponseWriter, req *http.Request) {
-						o.ran = append(o.ran, r.id())
-						o.vars = pathvar.Vars(req)
-					})); err != nil {
-						c.Violation(fmt.Sprint(table), "registration", fmt.Sprintf("valid table rejected: %v", err))
-						return
-					}
+			// registration order must not matter: forward, reversed (and every permutation of a
+			// 3-route table at the thorough tier)
+			orders := [][]rRoute{table}
+			if len(table) > 1 {
+				rev := make([]rRoute, len(table))
+				for i := range table {
+					rev[len(table)-1-i] = table[i]
 				}
-				rec := httptest.NewRecorder()
-				req := &http.Request{Method: m, URL: &url.URL{Path: p}, Header: http.Header{}}
-				rt.ServeHTTP(rec, req)
-				input := fmt.Sprintf("table=%v request=%s %q", table, m, p)
-				switch {
-				case len(sameMatch) > 0:
-					if len(o.ran) != 1 {
-						c.Violation(input, "no handler", fmt.Sprintf("matching pattern(s) %v exist but %d handlers ran (status %d)", sameMatch, len(o.ran), rec.Code))
-						return
-					}
-					var chosen *rRoute
-					for i := range sameMatch {
-						if sameMatch[i].id() == o.ran[0] {
-							chosen = &sameMatch[i]
-						}
-					}
-					if chosen == nil {
-						c.Violation(input, "wrong handler", fmt.Sprintf("handler %s ran but its pattern does not match (matching: %v)", o.ran[0], sameMatch))
-						return
-					}
-					if literalWinner != nil && chosen.id() != literalWinner.id() {
-						c.Violation(input, "literal preference", fmt.Sprintf("all-literal pattern %s matches but %s was invoked", literalWinner.id(), chosen.id()))
-					}
-					want, _ := refMatch(chosen.pattern, cleaned)
-					got := o.vars
-					if len(want) == 0 && len(got) == 0 {
-						return
-					}
-					if fmt.Sprint(want) != fmt.Sprint(got) {
-						c.Violation(input, "path variables", fmt.Sprintf("handler %s got vars %v, want %v", chosen.id(), got, want))
-					}
-				case len(allow) > 0:
-					if len(o.ran) != 0 || rec.Code != http.StatusMethodNotAllowed {
-						c.Violation(input, "405", fmt.Sprintf("no %s pattern matches but other methods do: status %d, handlers %v", m, rec.Code, o.ran))
-						return
-					}
-					var got []string
-					for _, a := range strings.Split(rec.Header().Get("Allow"), ",") {
-						if a = strings.TrimSpace(a); a != "" {
-							got = append(got, a)
-						}
-					}
-					sort.Strings(got)
-					var want []string
-					for a := range allow {
-						want = append(want, a)
-					}
-					sort.Strings(want)
-					if fmt.Sprint(got) != fmt.Sprint(want) {
-						c.Violation(input, "allow header", fmt.Sprintf("Allow = %v, want %v", got, want))
-					}
-				default:
-					if len(o.ran) != 0 || rec.Code != http.StatusNotFound {
-						c.Violation(input, "404", fmt.Sprintf("nothing matches: status %d, handlers %v", rec.Code, o.ran))
-					}
-				}
-			})
-			for i := 0; i < runs; i++ {
-				c.Eval(class, func() any {
-					return map[string]any{"table": fmt.Sprint(table), "request": m + " " + p, "class": class, "map_orders": runs}
-				})
+				orders = append(orders, rev)
 			}
-			if c.NumViolations() > 0 {
-				return
+			if len(table) == 3 && vrt.Thorough() {
+				t := table
+				orders = [][]rRoute{{t[0], t[1], t[2]}, {t[0], t[2], t[1]}, {t[1], t[0], t[2]}, {t[1], t[2], t[0]}, {t[2], t[0], t[1]}, {t[2], t[1], t[0]}}
+			}
+			for _, regOrder := range orders {
+				regOrder := regOrder
+				runs := vrt.ForEachMapOrder(func() {
+					o := &rObs{}
+					rt := NewRouter()
+					for _, r := range regOrder {
+						r := r
+						if err := rt.Handle(r.method, r.pattern, http.HandlerFunc(func(w http.ResponseWriter, req *http.Request) {
+							o.ran = append(o.ran, r.id())
+							o.vars = pathvar.Vars(req)
+						})); err != nil {
+							c.Violation(fmt.Sprint(regOrder), "registration", fmt.Sprintf("valid table rejected: %v", err))
+							return
+						}
+					}
+					rec := httptest.NewRecorder()
+					req := &http.Request{Method: m, URL: &url.URL{Path: p}, Header: http.Header{}}
+					rt.ServeHTTP(rec, req)
+					input := fmt.Sprintf("table=%v request=%s %q", regOrder, m, p)
+					switch {
+					case len(sameMatch) > 0:
+						if len(o.ran) != 1 {
+							c.Violation(input, "no handler", fmt.Sprintf("matching pattern(s) %v exist but %d handlers ran (status %d)", sameMatch, len(o.ran), rec.Code))
+							return
+						}
+						var chosen *rRoute
+						for i := range sameMatch {
+							if sameMatch[i].id() == o.ran[0] {
+								chosen = &sameMatch[i]
+							}
+						}
+						if chosen == nil {
+							c.Violation(input, "wrong handler", fmt.Sprintf("handler %s ran but its pattern does not match (matching: %v)", o.ran[0], sameMatch))
+							return
+						}
+						if literalWinner != nil && chosen.id() != literalWinner.id() {
+							c.Violation(input, "literal preference", fmt.Sprintf("all-literal pattern %s matches but %s was invoked", literalWinner.id(), chosen.id()))
+						}
+						want, _ := refMatch(chosen.pattern, cleaned)
+						got := o.vars
+						if len(want) == 0 && len(got) == 0 {
+							return
+						}
+						if fmt.Sprint(want) != fmt.Sprint(got) {
+							c.Violation(input, "path variables", fmt.Sprintf("handler %s got vars %v, want %v", chosen.id(), got, want))
+						}
+					case len(allow) > 0:
+						if len(o.ran) != 0 || rec.Code != http.StatusMethodNotAllowed {
+							c.Violation(input, "405", fmt.Sprintf("no %s pattern matches but other methods do: status %d, handlers %v", m, rec.Code, o.ran))
+							return
+						}
+						var got []string
+						for _, a := range strings.Split(rec.Header().Get("Allow"), ",") {
+							if a = strings.TrimSpace(a); a != "" {
+								got = append(got, a)
+							}
+						}
+						sort.Strings(got)
+						var want []string
+						for a := range allow {
+							want = append(want, a)
+						}
+						sort.Strings(want)
+						if fmt.Sprint(got) != fmt.Sprint(want) {
+							c.Violation(input, "allow header", fmt.Sprintf("Allow = %v, want %v", got, want))
+						}
+					default:
+						if len(o.ran) != 0 || rec.Code != http.StatusNotFound {
+							c.Violation(input, "404", fmt.Sprintf("nothing matches: status %d, handlers %v", rec.Code, o.ran))
+						}
+					}
+				})
+				for i := 0; i < runs; i++ {
+					c.Eval(class, func() any {
+						return map[string]any{"table": fmt.Sprint(regOrder), "request": m + " " + p, "class": class, "map_orders": runs}
+					})
+				}
+				if c.NumViolations() > 0 {
+					return
+				}
 			}
 		}
 	}
